@@ -99,6 +99,15 @@ template<class P> static void run_grammar(const char* name, const P& p, const st
             ++g_checks; if (r1 != r2 || r1 != r3) fail(in, "buffer kinds disagree: user " + show(r1) + ", string_view " + show(r2) + ", string " + show(r3));
             ++g_checks; if (e1.str() != e2.str() || e1.str() != e3.str()) fail(in, "messages differ between buffer kinds");
             if (opt == 0) {
+                // the verbose path has its own reads (character names, lexeme text): same oracles
+                g_f = Fault{}; std::ostringstream ev1; std::optional<int> rv1; bool hz = false;
+                try { rv1 = p.parse(parse_options{}.set_verbose(), checked_buffer(in.data(), in.size()), ev1); } catch (const Horizon&) { hz = true; }
+                ++g_checks; if (hz) fail(in, "no termination within the step horizon (verbose, user buffer)");
+                else if (g_f.deref_end || g_f.deref_out || g_f.formed_out) fail(in, "verbose parse, user buffer: " + std::to_string(g_f.deref_end) + " reads of end(), " + std::to_string(g_f.deref_out) + " reads outside, " + std::to_string(g_f.formed_out) + " iterators formed outside [begin,end]");
+                else if (rv1 != r1) fail(in, "verbose parse gives " + show(rv1) + ", plain parse " + show(r1));
+                char* vb = static_cast<char*>(std::malloc(in.size() ? in.size() : 1)); std::memcpy(vb, in.data(), in.size());
+                std::ostringstream ev2; auto rv2 = p.parse(parse_options{}.set_verbose(), string_view_buffer(std::string_view(vb, in.size())), ev2); std::free(vb);
+                ++g_checks; if (rv2 != r1) fail(in, "verbose parse (string_view) gives " + show(rv2) + ", plain parse " + show(r1));
                 bool sup = false; std::optional<int> r4; bool cap = false;
                 try { r4 = via_cstring_dispatch(p, in, sup); } catch (const std::runtime_error&) { cap = true; }   // loud capacity failure: judged by C12
                 ++g_checks; if (sup && !cap && r4 != r1) fail(in, "cstring_buffer gives " + show(r4) + ", other buffers " + show(r1));
@@ -123,7 +132,7 @@ int main(int argc, char** argv) {
     run_grammar("expr", p_expr, std::string("1+*()", 5) + std::string("\0\x80 \n", 4), n);
     run_grammar("recovery", p_rec, std::string("x;y", 3) + std::string("\0\xff \n", 4), n);
     run_grammar("numbers", p_num, std::string("1,a", 3) + std::string("\0\x80\xff \n", 5), n);
-    for (int d : {10, 100, 1000, 10000, 100000}) {
+    for (int d : {10, 100, 1000, 1021, 1022, 1023, 1024, 1025, 2046, 2047, 2048, 2049, 4095, 4096, 10000, 65534, 65535, 65536, 65537, 100000}) {   // around the vectors' reserved size (1024), its doublings and the 16-bit limit
         sweep("expr-nesting", p_expr, std::string(d, '(') + "1" + std::string(d, ')'), 1);
         sweep("expr-nesting-unclosed", p_expr, std::string(d, '(') + "1", std::nullopt);
         std::string chain = "1"; for (int i = 0; i < d; ++i) chain += "+1"; sweep("expr-chain", p_expr, chain, d + 1);
